@@ -310,6 +310,9 @@ func (p *parser) checkAlias(mAlias ast.Alias, typeSensitive bool, start int, cac
 					resolver:    p.resolver,
 					typechecker: p.typechecker,
 					Operators:   p.Operators,
+
+					genericInstantiationDepth:   p.genericInstantiationDepth,
+					genericInstantiationAborted: p.genericInstantiationAborted,
 				}
 
 				if paramType.IsReference {
@@ -393,6 +396,9 @@ func (p *parser) checkAlias(mAlias ast.Alias, typeSensitive bool, start int, cac
 	return args, nil, nil, reported_errors
 }
 
+// the maximum number of nested instantiations of generic functions
+const maxGenericInstantiationDepth = 64
+
 // instantiates a generic function with the given types
 // genericTypes maps GenericTypeName -> Type
 // returns the new instantiation and any errors that occured during instatiation
@@ -434,6 +440,26 @@ func (p *parser) InstantiateGenericFunction(genericFunc *ast.FuncDecl, genericTy
 		}
 	}
 
+	if p.genericInstantiationAborted == nil {
+		p.genericInstantiationAborted = new(bool)
+	}
+	if p.genericInstantiationDepth == 0 {
+		// the outermost instantiation: whatever happens below, the next one starts afresh
+		defer func() { *p.genericInstantiationAborted = false }()
+	}
+	if p.genericInstantiationDepth >= maxGenericInstantiationDepth {
+		*p.genericInstantiationAborted = true
+	}
+	if *p.genericInstantiationAborted {
+		return nil, []ddperror.Error{ddperror.New(
+			ddperror.SEM_ERROR_INSTANTIATING_GENERIC_FUNCTION,
+			ddperror.LEVEL_ERROR,
+			genericFunc.NameTok.Range,
+			fmt.Sprintf("Die generische Funktion '%s' wurde mehr als %d mal verschachtelt instanziiert", genericFunc.Name(), maxGenericInstantiationDepth),
+			genericFunc.Mod.FileName,
+		)}
+	}
+
 	decl := *genericFunc
 	decl.Parameters = parameters
 	decl.ReturnType = ddptypes.GetInstantiatedType(genericFunc.ReturnType, genericTypes)
@@ -454,10 +480,14 @@ func (p *parser) InstantiateGenericFunction(genericFunc *ast.FuncDecl, genericTy
 
 	errorCollector := ddperror.Collector{}
 	declParser := &parser{
-		tokens:                genericFunc.Generic.Tokens,
-		errorHandler:          errorCollector.GetHandler(),
-		module:                genericFunc.Mod,
-		genericModule:         genericModule,
+		tokens:        genericFunc.Generic.Tokens,
+		errorHandler:  errorCollector.GetHandler(),
+		module:        genericFunc.Mod,
+		genericModule: genericModule,
+
+		genericInstantiationDepth:   p.genericInstantiationDepth + 1,
+		genericInstantiationAborted: p.genericInstantiationAborted,
+
 		aliases:               context.Aliases,
 		currentFunction:       &decl,
 		isCurrentFunctionBool: ddptypes.Equal(decl.ReturnType, ddptypes.WAHRHEITSWERT),
